@@ -49,6 +49,7 @@ class PluginRef(MetadataSchema):
             return self.name >= other.name
         if self.version != other.version:
             return self.version >= other.version
+        return True
 
     def __hash__(self):
         # needed because otherwise would differ in subclass,
